@@ -143,6 +143,7 @@ func TestReplay(t *testing.T) {
 				inWorld++
 				tag := fmt.Sprintf("b%dt%da%d", idx, ti, ai)
 				s := NewSession(w, hdr, tag, tb, ad)
+				s.Variant = idx + seed
 				var rerr error
 				if needCreate {
 					for _, n := range hdr.Ds {
